@@ -14,6 +14,7 @@ Next == /\ depth < Depth
            \/ Do(SyncStop(pr), "sync_stop", [op |-> "sync_stop"])
            \/ \E p \in Periods \cup {0} : Do(PdoStart(pr, p).pr, "pdo_start", [op |-> "pdo_start", period_us |-> p])
            \/ Do(PdoStop(pr), "pdo_stop", [op |-> "pdo_stop"])
+           \/ \E id \in {385, 641} : Do(PdoSetCob(pr, id), "pdo_cob", [op |-> "pdo_cob", id |-> id])
            \/ \E d \in {<<1, 2>>, <<3, 4>>} : Do(PdoSetData(pr, d), "pdo_set", [op |-> "pdo_set", d |-> d])
            \/ \E ms \in HbTimes : Do(HbStart(pr, ms), "hb_start", [op |-> "hb_start", ms |-> ms])
            \/ Do(HbStop(pr), "hb_stop", [op |-> "hb_stop"])
@@ -31,6 +32,7 @@ NoneAfterStop == /\ last = "sync_stop" => pr.sync = Off
 NoneAfterZeroHeartbeat == (last = "write1017" /\ pr.od1017 = 0) => pr.hb = Off
 DisconnectStopsPdo == last = "disconnect" => pr.pdo = Off
 HbPayloadIsState == pr.hb # Off => pr.hb.d = <<pr.hbState>>
+RestartUsesCurrentId == last = "pdo_start" /\ pr.pdo # Off => pr.pdo.id = pr.pdoId
 PdoPayloadCurrent == pr.pdo # Off => pr.pdo.d = pr.pdoData
 GenPrint == depth = Depth => PrintT(<<"BEH", ToJson(hist)>>)
 =============================================================================
